@@ -4,6 +4,8 @@ import ProductMD.Proofs.C08Ini
 import ProductMD.Proofs.C08TreeInfo
 import ProductMD.Proofs.C08CIRepeat
 import ProductMD.Proofs.C08Manifests
+import ProductMD.Proofs.C08HistoryBuilders
+import ProductMD.Properties.C12
 import ProductMD.Model.DiscInfo
 import ProductMD.Model.ManifestIO
 /-!
@@ -474,8 +476,8 @@ theorem C08_order_kept_discinfo_witness :
 /-- **C08 (rpms, modules, extra_files).**  The mapping the `add` calls built is stored and written verbatim, so the bytes
 are a function of that mapping modulo the order of the entries of its dicts at every level (variant, arch, srpm / module /
 … tables, checksum dicts); its lists (extra-file entries, a module's rpm list) are content.  [Which mapping a given
-HISTORY of `add` calls builds is C12's model; that two histories differing in the order of non-colliding calls build
-`JEq` mappings is checked by correspondence, not proved here.] -/
+HISTORY of `add` calls builds is C12's model; that two histories differing in the order of their calls build `JEq`
+mappings - hence the same bytes - is `C08_perm_history_rpms` / `_modules` / `_extra_files` / `_bytes` below.] -/
 theorem C08_perm_manifests (k : Mf.Kind) (m m' : Mf.Manifest) (hc : m.compose = m'.compose) (hp : JEq m.payload m'.payload) :
     (Mf.dumps k m).2 = (Mf.dumps k m').2 := by
   cases k <;> simp only [Mf.dumps, Mf.dumpDoc, Mf.serialize, Mf.Kind.className, ← hc]
@@ -506,8 +508,7 @@ theorem C08_perm_manifests (k : Mf.Kind) (m m' : Mf.Manifest) (hc : m.compose = 
 /-- **C08 (manifest builders): two state updates at different addresses commute.**  Every `add` of the three builders is
 `setPathS leaf path state` after checks that do not touch the state (`Rpms.add_eq`, `Modules.add_eq`, `ExtraFiles.add_eq`); for
 ANY two leaf updates and any two different paths of the same length the two orders give the same mapping up to the order of dict
-entries.  (Towards the statement on whole HISTORIES - a rearrangement of non-colliding calls builds a `JEq` mapping - what is
-still missing is the congruence `JEq s s' → JEq (add s a).1 (add s' a).1`; histories are covered by correspondence.) -/
+entries.  (The two-call case; whole histories: `C08_perm_history_*` below.) -/
 theorem C08_manifests_updates_commute (f1 f2 : PyVal → PyVal × Mf.Out) (p1 p2 : List Str) (hl : p1.length = p2.length)
     (hne : p1 ≠ p2) (s : PyVal) (hs : Mf.NodupAll s) :
     JEq (Mf.setPathS f2 p2 (Mf.setPathS f1 p1 s).1).1 (Mf.setPathS f1 p1 (Mf.setPathS f2 p2 s).1).1 :=
@@ -539,6 +540,194 @@ theorem C08_repeat_manifests (k : Mf.Kind) (m : Mf.Manifest) : (Mf.dumps k (Mf.d
     | error e => exact ⟨rfl, rfl⟩
     | ok u => cases u; exact ⟨rfl, rfl⟩
   exact C08_perm_manifests k _ _ h.1 (h.2 ▸ JEq.refl _)
+
+/-! ## rpms / modules / extra_files: whole HISTORIES of `add` calls
+
+Full statement: for every start mapping (a fresh `{}` or anything loaded; keys of every dict distinct, `Mf.NodupAll` - the model
+domain: they are Python dicts), every history `h` of `add` calls of any length (accepted and refused ones mixed) and every
+rearrangement `h'` of it in which the calls writing the same ORDER-SENSITIVE cell keep their relative order (`SameOrder slot`:
+`h'` is a permutation of `h`, and for each cell the sub-history of the calls writing it is the same list), running the C12
+model of `add` over `h` and over `h'` gives `JEq` mappings - equal up to the order of dict entries at every level, hence
+the same bytes - and every call has the same outcome in both runs.
+
+The order-sensitive cells (what is caller-ordered CONTENT): rpms - the slot `[variant][arch][srpm][nevra]` (two writes of one
+slot: the later wins); modules - the entry `[variant][arch][uid]` (a repeated add extends the module's rpm list and rewrites
+`metadata` / `modulemd_path[category]`); extra_files - the entry list `[variant][arch]`.  Everything else is unordered: variants,
+arches, source packages, packages of one source package, modules, and calls that the precondition checks refuse (they write
+nothing whatever the mapping; they may stand anywhere).
+
+Route (`Proofs/C08History.lean`, `Proofs/C08HistoryBuilders.lean`): `SameOrder slot h h'` is exactly "reachable by swapping
+adjacent independent calls" (`C08_history_order_iff_swaps`); two adjacent independent calls commute up to `JEq` with unchanged
+outcomes (different addresses: `setPathS_comm`, `setPathS_out_other`; one address, commuting leaf updates: `setPathS_comm_same`
+with `rpmsLeaf_comm` / `extraLeaf_comm`); every `add` respects `JEq` (`setPathS_jeq`, `*Leaf_jeq`) and keeps `NodupAll`; `JEq` is
+transitive. -/
+
+/-- the quantifier of the history theorems, in its two forms: "the calls of every cell keep their relative order" is the same as
+"reachable by a sequence of swaps of two adjacent calls that do not write the same cell" -/
+theorem C08_history_order_iff_swaps {α γ : Type} [DecidableEq γ] (cell : α → Option γ) (h h' : List α) :
+    SameOrder cell h h' ↔ SwapEq (CellIndep cell) h h' :=
+  ⟨SwapEq.of_sameOrder cell h h', SwapEq.sameOrder cell⟩
+
+/-- it contains every permutation of calls that pairwise write different cells (or nothing) -/
+theorem C08_history_order_of_perm {α γ : Type} [DecidableEq γ] (cell : α → Option γ) (h h' : List α) (hp : h.Perm h')
+    (hi : ∀ a ∈ h, ∀ b ∈ h, CellIndep cell a b) : SameOrder cell h h' :=
+  SwapEq.sameOrder cell (SwapEq.of_perm_pairwise_indep hp hi)
+
+/-- **C08 (rpms, histories).**  Rearranging a history of `Rpms.add` calls - any order of variants, arches, source packages and
+packages; two writes of one slot `[variant][arch][srpm][nevra]` in their order; refused calls anywhere - builds the same mapping up
+to dict order, and the calls with their outcomes are such a rearrangement of each other (same outcome for every call). -/
+theorem C08_perm_history_rpms (s : PyVal) (hs : Mf.NodupAll s) (h h' : List Mf.RpmsArgs) (ho : SameOrder Mf.rpmsSlot h h') :
+    JEq (Mf.runRpms s h) (Mf.runRpms s h') ∧
+    SameOrder (fun x : Mf.RpmsArgs × Mf.Out => Mf.rpmsSlot x.1) (Hist.trace Mf.Rpms.add s h) (Hist.trace Mf.Rpms.add s h') :=
+  Hist.perm_history Mf.rpms_commutes ho s hs
+
+/-- **C08 (modules, histories).**  The same for `Modules.add`; the calls for one module `[variant][arch][uid]` keep their order
+(they concatenate its caller-ordered rpm list). -/
+theorem C08_perm_history_modules (s : PyVal) (hs : Mf.NodupAll s) (h h' : List Mf.ModulesArgs) (ho : SameOrder Mf.modulesSlot h h') :
+    JEq (Mf.runModules s h) (Mf.runModules s h') ∧
+    SameOrder (fun x : Mf.ModulesArgs × Mf.Out => Mf.modulesSlot x.1) (Hist.trace Mf.Modules.add s h) (Hist.trace Mf.Modules.add s h') :=
+  Hist.perm_history Mf.modules_commutes ho s hs
+
+/-- **C08 (extra_files, histories).**  The same for `ExtraFiles.add`; the calls for one `[variant][arch]` keep their order (they
+append to its caller-ordered entry list). -/
+theorem C08_perm_history_extra_files (s : PyVal) (hs : Mf.NodupAll s) (h h' : List Mf.ExtraArgs) (ho : SameOrder Mf.extraSlot h h') :
+    JEq (Mf.runExtra s h) (Mf.runExtra s h') ∧
+    SameOrder (fun x : Mf.ExtraArgs × Mf.Out => Mf.extraSlot x.1) (Hist.trace Mf.ExtraFiles.add s h) (Hist.trace Mf.ExtraFiles.add s h') :=
+  Hist.perm_history Mf.extra_commutes ho s hs
+
+/-- **C08 (manifest histories): the same bytes.**  Whatever the header version and compose section, the manifests two such
+histories build are written as the same bytes (or both dumps raise the same error). -/
+theorem C08_perm_history_bytes (ver : PyVal) (compose : Obj) (s : PyVal) (hs : Mf.NodupAll s) :
+    (∀ h h', SameOrder Mf.rpmsSlot h h' →
+      (Mf.dumps .rpms ⟨ver, compose, Mf.runRpms s h⟩).2 = (Mf.dumps .rpms ⟨ver, compose, Mf.runRpms s h'⟩).2) ∧
+    (∀ h h', SameOrder Mf.modulesSlot h h' →
+      (Mf.dumps .modules ⟨ver, compose, Mf.runModules s h⟩).2 = (Mf.dumps .modules ⟨ver, compose, Mf.runModules s h'⟩).2) ∧
+    (∀ h h', SameOrder Mf.extraSlot h h' →
+      (Mf.dumps .extraFiles ⟨ver, compose, Mf.runExtra s h⟩).2 = (Mf.dumps .extraFiles ⟨ver, compose, Mf.runExtra s h'⟩).2) :=
+  ⟨fun h h' ho => C08_perm_manifests _ _ _ rfl (C08_perm_history_rpms s hs h h' ho).1,
+   fun h h' ho => C08_perm_manifests _ _ _ rfl (C08_perm_history_modules s hs h h' ho).1,
+   fun h h' ho => C08_perm_manifests _ _ _ rfl (C08_perm_history_extra_files s hs h h' ho).1⟩
+
+/-- **C08 (rpms histories): only the last write of a slot is content.**  A write that the NEXT call replaces (same slot
+`[variant][arch][srpm][nevra]`) leaves no trace: the mapping is the one built without it (equal, not only `JEq`), whatever the start
+mapping.  With `C08_perm_history_rpms` (a call may be moved next to the following call of its slot: no call of that slot stands
+between them) every overwritten write of a history can be dropped without changing the bytes. -/
+theorem C08_history_overwrite_rpms (s : PyVal) (a b : Mf.RpmsArgs) (t : List Mf.RpmsArgs) (hab : Mf.rpmsSlot a = Mf.rpmsSlot b)
+    (hb : Mf.rpmsSlot b ≠ Option.none) : Mf.runRpms s (a :: b :: t) = Mf.runRpms s (b :: t) := by
+  simp only [Mf.runRpms, List.foldl_cons, Mf.rpms_overwrite s a b hab hb]
+
+/-- **Refusal depends on the arguments only.**  On a freshly constructed manifest the outcome of every call of a history is the
+outcome of its precondition checks (`rpmsCheck` / `modulesCheck` / `extraCheck`, functions of the arguments): so the per-call
+outcomes of `C08_perm_history_*` are, from `{}`, the same function of the call in every rearrangement. -/
+theorem C08_history_outcomes :
+    (∀ h : List Mf.RpmsArgs, Hist.trace Mf.Rpms.add Mf.empty h = h.map (fun a => (a, (Mf.rpmsCheck a).map (fun _ => ())))) ∧
+    (∀ h : List Mf.ModulesArgs, Hist.trace Mf.Modules.add Mf.empty h = h.map (fun a => (a, (Mf.modulesCheck a).map (fun _ => ())))) ∧
+    (∀ h : List Mf.ExtraArgs, Hist.trace Mf.ExtraFiles.add Mf.empty h = h.map (fun a => (a, (Mf.extraCheck a).map (fun _ => ())))) := by
+  refine ⟨fun h => ?_, fun h => ?_, fun h => ?_⟩
+  · suffices ∀ s, Mf.RpmsShape s → Hist.trace Mf.Rpms.add s h = h.map (fun a => (a, (Mf.rpmsCheck a).map (fun _ => ()))) from
+      this Mf.empty rfl
+    induction h with
+    | nil => intro s _; rfl
+    | cons a t ih =>
+      intro s hs
+      simp only [Hist.trace, List.map_cons, Mf.C12_rpms_outcome s hs a, ih _ (Mf.rpms_shape_step s a hs)]
+  · suffices ∀ s, Mf.ModulesShape s → Hist.trace Mf.Modules.add s h = h.map (fun a => (a, (Mf.modulesCheck a).map (fun _ => ()))) from
+      this Mf.empty rfl
+    induction h with
+    | nil => intro s _; rfl
+    | cons a t ih =>
+      intro s hs
+      simp only [Hist.trace, List.map_cons, Mf.C12_modules_outcome s hs a, ih _ (Mf.modules_shape_step s a hs)]
+  · suffices ∀ s, Mf.ExtraShape s → Hist.trace Mf.ExtraFiles.add s h = h.map (fun a => (a, (Mf.extraCheck a).map (fun _ => ()))) from
+      this Mf.empty rfl
+    induction h with
+    | nil => intro s _; rfl
+    | cons a t ih =>
+      intro s hs
+      simp only [Hist.trace, List.map_cons, Mf.C12_extra_outcome s hs a, ih _ (Mf.extra_shape_step s a hs)]
+
+/-! ### non-vacuity: four calls, one of them refused, one slot written twice -/
+namespace Mf
+def wR (variant nevra path : String) : RpmsArgs :=
+  { variant := lit variant, arch := lit "x86_64", nevra := lit nevra, path := lit path, sigkey := none,
+    category := lit "binary", srpm := some (lit "foo-0:1.0-1.src") }
+def wR1 : RpmsArgs := wR "Server" "foo-0:1.0-1.x86_64" "p/first"
+/-- another package of the same source package (same address `[Server][x86_64][foo-0:1.0-1.src]`, other key) -/
+def wR2 : RpmsArgs := wR "Server" "foo-libs-0:1.0-1.x86_64" "p/libs"
+/-- the slot of `wR1` again, other record: the later write wins -/
+def wR3 : RpmsArgs := wR "Server" "foo-0:1.0-1.x86_64" "p/second"
+/-- refused: unknown arch -/
+def wRbad : RpmsArgs := { wR "Client" "foo-0:1.0-1.x86_64" "p/x" with arch := lit "no-such-arch" }
+
+def wM (uid : String) (rpms : List String) : ModulesArgs :=
+  { variant := lit "Server", arch := lit "x86_64", uid := .str (lit uid), kojiTag := lit "t", modulemdPath := lit "m.yaml",
+    category := lit "binary", rpms := .list (rpms.map fun r => .str (lit r)) }
+def wM1 : ModulesArgs := wM "httpd:2.4:1:c" ["a", "b"]
+def wM2 : ModulesArgs := wM "nginx:1:1:c" ["z"]
+/-- the module of `wM1` again: its rpm list is extended -/
+def wM3 : ModulesArgs := wM "httpd:2.4:1:c" ["a", "0"]
+def wMbad : ModulesArgs := { wM "x:1" [] with kojiTag := [] }
+
+def wE (arch path : String) : ExtraArgs :=
+  { variant := lit "Server", arch := lit arch, path := lit path, size := .int 1, checksums := .dict [] }
+def wE1 : ExtraArgs := wE "x86_64" "zz/GPL"
+/-- another arch of the same variant (same address `[Server]`, other key of the leaf) -/
+def wE2 : ExtraArgs := wE "aarch64" "EULA"
+/-- the entry list of `wE1` again -/
+def wE3 : ExtraArgs := wE "x86_64" "EULA"
+def wEbad : ExtraArgs := { wE "x86_64" "/abs" with checksums := .list [] }
+end Mf
+
+/-- `[a1, refused, a2, a3] ~ [a2, a1, refused, a3]` where `a3` rewrites the slot of `a1` -/
+theorem C08_history_rpms_example_order : SameOrder Mf.rpmsSlot [Mf.wR1, Mf.wRbad, Mf.wR2, Mf.wR3] [Mf.wR2, Mf.wR1, Mf.wRbad, Mf.wR3] :=
+  SwapEq.sameOrder _ (.trans (.cons _ (.swap _ _ _ (Or.inl (by decide +kernel)))) (.swap _ _ _ (Or.inr (Or.inr (by decide +kernel)))))
+
+/-- the hypotheses of `C08_perm_history_rpms` hold for a genuine rearrangement of four calls: one refused (in both runs), one slot
+written twice (the second write survives in both runs), two packages of one source package swapped; the two mappings are NOT the
+same list of entries, and both manifests are written - as the same bytes -/
+example :
+    Mf.rpmsSlot Mf.wRbad = Option.none ∧ Mf.rpmsSlot Mf.wR3 = Mf.rpmsSlot Mf.wR1 ∧ Mf.rpmsSlot Mf.wR1 ≠ Option.none ∧
+    (Mf.runRpms Mf.empty [Mf.wR1, Mf.wRbad, Mf.wR2, Mf.wR3] != Mf.runRpms Mf.empty [Mf.wR2, Mf.wR1, Mf.wRbad, Mf.wR3]) = true ∧
+    ((Hist.trace Mf.Rpms.add Mf.empty [Mf.wR2, Mf.wR1, Mf.wRbad, Mf.wR3]).map (fun x => Mf.Out.isOk x.2)) = [true, true, false, true] ∧
+    JEq (Mf.runRpms Mf.empty [Mf.wR1, Mf.wRbad, Mf.wR2, Mf.wR3]) (Mf.runRpms Mf.empty [Mf.wR2, Mf.wR1, Mf.wRbad, Mf.wR3]) :=
+  ⟨by decide +kernel, by decide +kernel, by decide +kernel, by decide +kernel, by decide +kernel,
+   (C08_perm_history_rpms Mf.empty Mf.nodupAll_empty _ _ C08_history_rpms_example_order).1⟩
+
+/-- **Two writes of one slot (the region the quantifier excludes): the order IS content.**  `[a1, a3]` and `[a3, a1]` are written
+as different bytes (the later record wins). -/
+theorem C08_history_same_slot_witness :
+    Mf.rpmsSlot Mf.wR3 = Mf.rpmsSlot Mf.wR1 ∧
+    (JsonText.dumps (Mf.runRpms Mf.empty [Mf.wR1, Mf.wR3]) != JsonText.dumps (Mf.runRpms Mf.empty [Mf.wR3, Mf.wR1])) = true ∧
+    (JsonText.dumps (Mf.runModules Mf.empty [Mf.wM1, Mf.wM3]) != JsonText.dumps (Mf.runModules Mf.empty [Mf.wM3, Mf.wM1])) = true ∧
+    (JsonText.dumps (Mf.runExtra Mf.empty [Mf.wE1, Mf.wE3]) != JsonText.dumps (Mf.runExtra Mf.empty [Mf.wE3, Mf.wE1])) = true := by
+  decide +kernel
+
+/-- the hypotheses of `C08_history_overwrite_rpms` hold for two different calls -/
+example : Mf.rpmsSlot Mf.wR1 = Mf.rpmsSlot Mf.wR3 ∧ Mf.rpmsSlot Mf.wR3 ≠ Option.none ∧ Mf.wR1.path ≠ Mf.wR3.path := by decide +kernel
+
+theorem C08_history_modules_example_order :
+    SameOrder Mf.modulesSlot [Mf.wM1, Mf.wMbad, Mf.wM2, Mf.wM3] [Mf.wM2, Mf.wM1, Mf.wMbad, Mf.wM3] :=
+  SwapEq.sameOrder _ (.trans (.cons _ (.swap _ _ _ (Or.inl (by decide +kernel)))) (.swap _ _ _ (Or.inr (Or.inr (by decide +kernel)))))
+
+example :
+    Mf.modulesSlot Mf.wMbad = Option.none ∧ Mf.modulesSlot Mf.wM3 = Mf.modulesSlot Mf.wM1 ∧ Mf.modulesSlot Mf.wM1 ≠ Option.none ∧
+    (Mf.runModules Mf.empty [Mf.wM1, Mf.wMbad, Mf.wM2, Mf.wM3] != Mf.runModules Mf.empty [Mf.wM2, Mf.wM1, Mf.wMbad, Mf.wM3]) = true ∧
+    ((Hist.trace Mf.Modules.add Mf.empty [Mf.wM2, Mf.wM1, Mf.wMbad, Mf.wM3]).map (fun x => Mf.Out.isOk x.2)) = [true, true, false, true] ∧
+    JEq (Mf.runModules Mf.empty [Mf.wM1, Mf.wMbad, Mf.wM2, Mf.wM3]) (Mf.runModules Mf.empty [Mf.wM2, Mf.wM1, Mf.wMbad, Mf.wM3]) :=
+  ⟨by decide +kernel, by decide +kernel, by decide +kernel, by decide +kernel, by decide +kernel,
+   (C08_perm_history_modules Mf.empty Mf.nodupAll_empty _ _ C08_history_modules_example_order).1⟩
+
+theorem C08_history_extra_example_order :
+    SameOrder Mf.extraSlot [Mf.wE1, Mf.wEbad, Mf.wE2, Mf.wE3] [Mf.wE2, Mf.wE1, Mf.wEbad, Mf.wE3] :=
+  SwapEq.sameOrder _ (.trans (.cons _ (.swap _ _ _ (Or.inl (by decide +kernel)))) (.swap _ _ _ (Or.inr (Or.inr (by decide +kernel)))))
+
+example :
+    Mf.extraSlot Mf.wEbad = Option.none ∧ Mf.extraSlot Mf.wE3 = Mf.extraSlot Mf.wE1 ∧ Mf.extraSlot Mf.wE1 ≠ Option.none ∧
+    (Mf.runExtra Mf.empty [Mf.wE1, Mf.wEbad, Mf.wE2, Mf.wE3] != Mf.runExtra Mf.empty [Mf.wE2, Mf.wE1, Mf.wEbad, Mf.wE3]) = true ∧
+    ((Hist.trace Mf.ExtraFiles.add Mf.empty [Mf.wE2, Mf.wE1, Mf.wEbad, Mf.wE3]).map (fun x => Mf.Out.isOk x.2)) = [true, true, false, true] ∧
+    JEq (Mf.runExtra Mf.empty [Mf.wE1, Mf.wEbad, Mf.wE2, Mf.wE3]) (Mf.runExtra Mf.empty [Mf.wE2, Mf.wE1, Mf.wEbad, Mf.wE3]) :=
+  ⟨by decide +kernel, by decide +kernel, by decide +kernel, by decide +kernel, by decide +kernel,
+   (C08_perm_history_extra_files Mf.empty Mf.nodupAll_empty _ _ C08_history_extra_example_order).1⟩
 
 /-! ## treeinfo, the whole writer -/
 
